@@ -63,6 +63,38 @@ type serParams struct {
 	N int64   `vgirpc:"n"`
 }
 
+// enumParams / pointParams: parameters whose validity is below the schema
+// level (a dictionary index, an embedded IPC payload).
+type enumParams struct {
+	Status string `vgirpc:"status,enum"`
+	N      int64  `vgirpc:"n"`
+}
+
+type pointParams struct {
+	P c03Point `vgirpc:"p,binary"`
+}
+
+type c03Point struct {
+	X    float64 `arrow:"x"`
+	Name string  `arrow:"name"`
+	K    int32   `arrow:"k"`
+}
+
+var c03PointSchema = arrow.NewSchema([]arrow.Field{
+	{Name: "x", Type: arrow.PrimitiveTypes.Float64},
+	{Name: "name", Type: arrow.BinaryTypes.String},
+	{Name: "k", Type: arrow.PrimitiveTypes.Int32},
+}, nil)
+
+func (c03Point) ArrowSchema() *arrow.Schema { return c03PointSchema }
+
+// c03Fin is a producer state that finishes at once.
+type c03Fin struct{}
+
+func (*c03Fin) Produce(_ context.Context, out *vgirpc.OutputCollector, _ *vgirpc.CallContext) error {
+	return out.Finish()
+}
+
 type c03Upload struct{}
 
 func (c03Upload) GenerateUploadURL(schema *arrow.Schema) (vgirpc.UploadURL, error) {
@@ -74,6 +106,11 @@ func c03Server(cfg c03Config) (*vgirpc.Server, *vgirpc.HttpServer) {
 	srv.SetServerID("c03")
 	lib.RegisterScripted(srv)
 	vgirpc.Unary(srv, "u_ser", func(_ context.Context, _ *vgirpc.CallContext, p serParams) (string, error) { return p.H.Note, nil })
+	vgirpc.Unary(srv, "u_enum", func(_ context.Context, _ *vgirpc.CallContext, p enumParams) (string, error) { return p.Status, nil })
+	vgirpc.Unary(srv, "u_point", func(_ context.Context, _ *vgirpc.CallContext, p pointParams) (string, error) { return p.P.Name, nil })
+	vgirpc.Producer(srv, "s_enum", lib.OutSchema, func(_ context.Context, _ *vgirpc.CallContext, p enumParams) (*vgirpc.StreamResult, error) {
+		return &vgirpc.StreamResult{OutputSchema: lib.OutSchema, State: &c03Fin{}}, nil
+	})
 	if cfg.Version != "" {
 		srv.SetProtocolVersion(cfg.Version)
 	}
@@ -233,6 +270,9 @@ func genC03(t *rapid.T) c03Case {
 	c.Cfg = c03Config{External: rapid.Bool().Draw(t, "ext"), Sticky: rapid.Bool().Draw(t, "sticky"), Hook: rapid.Bool().Draw(t, "hook"), Upload: rapid.Bool().Draw(t, "upload")}
 	if rapid.IntRange(0, 3).Draw(t, "ver") == 0 {
 		c.Cfg.Version = "1.2.3"
+	}
+	if rapid.IntRange(0, 7).Draw(t, "nested?") == 0 {
+		return genC03Nested(t, c)
 	}
 	methods := []string{"u_str", "u_void", "u_struct", "u_ser", "s_prod", "s_prod_h", "s_exch", "s_exch_h", "s_dyn", "__describe__", "__transport_options__", "nope"}
 	method := methods[rapid.IntRange(0, len(methods)-1).Draw(t, "method")]
@@ -443,6 +483,143 @@ func genC03(t *rapid.T) c03Case {
 	return c
 }
 
+// genC03Nested: requests whose parameter batch has exactly the declared
+// schema (so it passes the schema gate) while the data underneath is off: a
+// dictionary index outside its dictionary, or an embedded ArrowSerializable
+// IPC payload with no row, retyped / missing / extra columns, nulls, or bytes
+// that are not IPC at all.
+func genC03Nested(t *rapid.T, c c03Case) c03Case {
+	c.Dispatch = true
+	method := []string{"u_enum", "s_enum", "u_point", "u_ser"}[rapid.IntRange(0, 3).Draw(t, "nmethod")]
+	var params arrow.RecordBatch
+	switch method {
+	case "u_enum", "s_enum":
+		idxType := arrow.PrimitiveTypes.Int16
+		dt := &arrow.DictionaryType{IndexType: idxType, ValueType: arrow.BinaryTypes.String}
+		schema := arrow.NewSchema([]arrow.Field{{Name: "status", Type: dt}, {Name: "n", Type: arrow.PrimitiveTypes.Int64}}, nil)
+		nd := rapid.IntRange(0, 3).Draw(t, "dictlen")
+		db := array.NewStringBuilder(lib.Mem)
+		for i := 0; i < nd; i++ {
+			db.Append(fmt.Sprintf("v%d", i))
+		}
+		dict := db.NewArray()
+		ib := array.NewInt16Builder(lib.Mem)
+		kind := []string{"in-range", "past-end", "far", "negative", "null"}[rapid.IntRange(0, 4).Draw(t, "idxkind")]
+		switch kind {
+		case "in-range":
+			if nd == 0 {
+				kind = "past-end"
+				ib.Append(0)
+			} else {
+				ib.Append(int16(rapid.IntRange(0, nd-1).Draw(t, "idx")))
+			}
+		case "past-end":
+			ib.Append(int16(nd))
+		case "far":
+			ib.Append(int16(rapid.IntRange(nd+1, 32767).Draw(t, "idxfar")))
+		case "negative":
+			ib.Append(int16(-rapid.IntRange(1, 32768).Draw(t, "idxneg")))
+		case "null":
+			ib.AppendNull()
+		}
+		nb := array.NewInt64Builder(lib.Mem)
+		nb.Append(1)
+		col := array.NewDictionaryArray(dt, ib.NewArray(), dict)
+		params = array.NewRecordBatch(schema, []arrow.Array{col, nb.NewArray()}, 1)
+		c.Tags = append(c.Tags, "nested:dict-index-"+kind)
+	default:
+		target := c03PointSchema
+		if method == "u_ser" {
+			target = lib.HdrSchema
+		}
+		kind := []string{"valid", "zero-rows", "retyped", "missing-column", "extra-column", "nulls", "not-ipc", "empty", "two-rows"}[rapid.IntRange(0, 8).Draw(t, "innerkind")]
+		fields := append([]arrow.Field{}, target.Fields()...)
+		rows := 1
+		switch kind {
+		case "zero-rows":
+			rows = 0
+		case "two-rows":
+			rows = 2
+		case "retyped":
+			k := rapid.IntRange(0, len(fields)-1).Draw(t, "retype")
+			alts := []arrow.DataType{arrow.BinaryTypes.String, arrow.PrimitiveTypes.Int64, arrow.PrimitiveTypes.Float64, arrow.FixedWidthTypes.Boolean, arrow.BinaryTypes.Binary, arrow.ListOf(arrow.PrimitiveTypes.Int64), arrow.PrimitiveTypes.Uint8}
+			nt := alts[rapid.IntRange(0, len(alts)-1).Draw(t, "alt")]
+			if arrow.TypeEqual(nt, fields[k].Type) {
+				nt = arrow.FixedWidthTypes.Date32
+			}
+			fields[k].Type = nt
+		case "missing-column":
+			k := rapid.IntRange(0, len(fields)-1).Draw(t, "drop")
+			fields = append(fields[:k:k], fields[k+1:]...)
+		case "extra-column":
+			fields = append(fields, arrow.Field{Name: "zz", Type: arrow.PrimitiveTypes.Int64})
+		case "nulls":
+			for i := range fields {
+				fields[i].Nullable = true
+			}
+		}
+		var inner []byte
+		switch kind {
+		case "not-ipc":
+			inner = rapid.SliceOfN(rapid.Byte(), 1, 64).Draw(t, "junk")
+		case "empty":
+			inner = []byte{}
+		default:
+			isch := arrow.NewSchema(fields, nil)
+			var rec arrow.RecordBatch
+			if kind == "nulls" {
+				cols := make([]arrow.Array, len(fields))
+				for i, f := range fields {
+					cols[i] = array.MakeArrayOfNull(lib.Mem, f.Type, rows)
+				}
+				rec = array.NewRecordBatch(isch, cols, int64(rows))
+			} else {
+				rec = lib.GenBatch(t, isch, rows)
+			}
+			inner = lib.EncodeStream(isch, rec)
+		}
+		bb := array.NewBinaryBuilder(lib.Mem, arrow.BinaryTypes.Binary)
+		bb.Append(inner)
+		if method == "u_ser" {
+			schema := arrow.NewSchema([]arrow.Field{{Name: "h", Type: arrow.BinaryTypes.Binary}, {Name: "n", Type: arrow.PrimitiveTypes.Int64}}, nil)
+			nb := array.NewInt64Builder(lib.Mem)
+			nb.Append(1)
+			params = array.NewRecordBatch(schema, []arrow.Array{bb.NewArray(), nb.NewArray()}, 1)
+		} else {
+			schema := arrow.NewSchema([]arrow.Field{{Name: "p", Type: arrow.BinaryTypes.Binary}}, nil)
+			params = array.NewRecordBatch(schema, []arrow.Array{bb.NewArray()}, 1)
+		}
+		c.Tags = append(c.Tags, "nested:payload-"+kind)
+	}
+	c.Tags = append(c.Tags, "nested")
+	o := lib.ReqOpts{}
+	if c.Cfg.Version != "" {
+		o.ProtocolVersion = &c.Cfg.Version
+	}
+	if rapid.IntRange(0, 3).Draw(t, "nwrap") == 0 {
+		params = wrapRequest(lib.EncodeStream(params.Schema(), params))
+		c.Tags = append(c.Tags, "wrap:valid")
+	}
+	body := lib.BuildRequest(method, params, o)
+	if c.Transport == "pipe" {
+		var in bytes.Buffer
+		in.Write(body)
+		s, _ := sentinelCall().PipeBytes()
+		in.Write(s)
+		c.Body = in.Bytes()
+		return c
+	}
+	c.Method = "POST"
+	c.Path = "/" + method
+	if method == "s_enum" {
+		c.Path += "/init"
+	}
+	c.Tags = append(c.Tags, "route:natural")
+	c.Headers = map[string]string{"Content-Type": lib.ArrowCT}
+	c.Body = body
+	return c
+}
+
 func runC03(c c03Case) (out lib.Outcome) {
 	out.Label("transport:" + c.Transport)
 	out.Label(c.Tags...)
@@ -485,7 +662,7 @@ func runC03(c c03Case) (out lib.Outcome) {
 		first := strings.SplitN(r.Panic, "\n", 2)[0]
 		cls := "other"
 	pick:
-		for _, prefix := range []string{"zero-row", "token:", "shm", "rows:", "wrap:", "serializable", "foreign", "meta:"} {
+		for _, prefix := range []string{"nested:", "zero-row", "token:", "shm", "rows:", "wrap:", "serializable", "foreign", "meta:"} {
 			for _, tg := range c.Tags {
 				if strings.HasPrefix(tg, prefix) {
 					cls = tg
@@ -512,11 +689,11 @@ func runC03(c c03Case) (out lib.Outcome) {
 
 var propC03 = lib.Prop[c03Case]{
 	ID: "C03",
-	Rule: "structure-aware mutations of valid requests (framework metadata keys added with hostile values incl. location/shm/cancel/tokens, 0/2/5 rows, foreign schemas incl. nested dictionaries, wrapped `request` payloads valid/truncated/empty/foreign/nested up to 200 deep, ArrowSerializable payloads with a foreign inner schema, zero-row pointer batches, byte-level flips/truncations/splices/length edits) on the pipe (followed by a valid call) and on every HTTP route (unary, /init, /exchange with own/foreign/garbled/swapped/missing tokens, upload-url, introspection, session delete, pages) with content codings right/wrong/unknown, wrong verbs and content types, under server configurations external/sticky/hook/version/upload; each case runs in a memory-limited child process. " +
+	Rule: "structure-aware mutations of valid requests (framework metadata keys added with hostile values incl. location/shm/cancel/tokens, 0/2/5 rows, foreign schemas incl. nested dictionaries, wrapped `request` payloads valid/truncated/empty/foreign/nested up to 200 deep, ArrowSerializable payloads with a foreign inner schema, schema-exact requests whose dictionary index lies outside the dictionary or whose embedded ArrowSerializable payload has no/two rows, retyped, missing, extra or null columns or is not IPC, zero-row pointer batches, byte-level flips/truncations/splices/length edits) on the pipe (followed by a valid call) and on every HTTP route (unary, /init, /exchange with own/foreign/garbled/swapped/missing tokens, upload-url, introspection, session delete, pages) with content codings right/wrong/unknown, wrong verbs and content types, under server configurations external/sticky/hook/version/upload; each case runs in a memory-limited child process. " +
 		"Oracle: the process survives, no panic escapes Serve/ServeHTTP, pipe output is complete IPC streams, HTTP has a status. Non-trivial: the request was not byte-mutated (it reaches dispatch).",
 	Gen:          genC03,
 	Run:          runC03,
-	Essential:    []string{"transport:pipe", "transport:http", "zero-row-pointer", "route:exchange", "wrap:deep", "shm-pointer", "foreign-schema"},
+	Essential:    []string{"transport:pipe", "transport:http", "zero-row-pointer", "route:exchange", "wrap:deep", "shm-pointer", "foreign-schema", "nested"},
 	EssentialMin: 500,
 	Assumptions:  []string{"bodies whose framing declares >16 MiB more than present are excluded by construction (finding C03/oom-declared-length) and counted"},
 }
